@@ -1,2 +1,10 @@
 import OsyrisProofs.C17
-#print axioms Osyris.C17.placeholder
+#print axioms Osyris.C17.scatter_read
+#print axioms Osyris.C17.scatter_frame
+#print axioms Osyris.C17.read_after_write
+#print axioms Osyris.C17.write_frame
+#print axioms Osyris.C17.write_alias
+#print axioms Osyris.C17.alloc_fresh
+#print axioms Osyris.C17.C17_iop
+#print axioms Osyris.C17.C17_iop_frame
+#print axioms Osyris.C17.C17_copy_independent
